@@ -561,7 +561,11 @@ pub fn check_main(a: CheckArgs) -> i32 {
     } else if !harness_errors.is_empty() {
         2
     } else {
-        println!("C08 held on everything explored");
+        if known_hits.is_empty() {
+            println!("C08 held on everything explored");
+        } else {
+            println!("C08 held on everything explored, apart from the known finding(s) listed above");
+        }
         0
     }
 }
